@@ -59,6 +59,8 @@ def main():
                     msg = d.process(bytes(p['octets']))
                     objs[m] = msg
                     res = observe(msg)
+                elif op == 'decode_ive':
+                    res = observe(dec.process(bytes(p['octets']), ignore_value_expectation=True))
                 elif op == 'encode':
                     res = {'bytes': list(enc.process(p['flat_json']).serialized_bytes)}
                 elif op == 'query':
